@@ -47,6 +47,7 @@ func LoadMutant(base *Prog, overlay map[string][]byte) (*Prog, error) {
 	}
 	// directly changed packages
 	changed := map[string]bool{}
+	skipped := 0
 	for file := range overlay {
 		found := false
 		for _, p := range base.Pkgs {
@@ -58,8 +59,13 @@ func LoadMutant(base *Prog, overlay map[string][]byte) (*Prog, error) {
 			}
 		}
 		if !found {
-			return nil, fmt.Errorf("overlay file %s belongs to no loaded package (excluded by build constraints?)", file)
+			// a file excluded from this build configuration (the other offset width, another OS): the change to it
+			// does not exist here; the rest of the overlay does
+			skipped++
 		}
+	}
+	if len(changed) == 0 {
+		return nil, fmt.Errorf("no overlay file belongs to a loaded package (%d excluded by build constraints)", skipped)
 	}
 	// reverse-dependency closure among the module's packages
 	affected := map[string]bool{}
